@@ -67,14 +67,19 @@ class ColumnBackend(ArraySchemaBackend):
             )
 
         def validate_column(check_obj, column_name, return_check_obj=False):
-            # make sure the schema component mutations are reverted after
-            # validation
-            _orig_name = schema.name
+            # validate a regex-matched column against a renamed copy: the
+            # schema component itself is never mutated and collected errors
+            # keep referring to the matched column label
+            column_schema = (
+                schema
+                if schema.name == column_name
+                else deepcopy(schema).set_name(column_name)
+            )
             try:
                 # pylint: disable=super-with-arguments
                 validated_check_obj = super(ColumnBackend, self).validate(
                     check_obj,
-                    schema.set_name(column_name),
+                    column_schema,
                     head=head,
                     tail=tail,
                     sample=sample,
@@ -100,9 +105,6 @@ class ColumnBackend(ArraySchemaBackend):
                 error_handler.collect_error(
                     validation_type(err.reason_code), err.reason_code, err
                 )
-            finally:
-                # revert the schema component mutations
-                schema.name = _orig_name
 
         column_keys_to_check = (
             self.get_regex_columns(schema, check_obj)
